@@ -36,6 +36,7 @@ def classes_main(job):
             r["attrs"] = X.attrs_equal(obj, fresh)
             r["type"] = type(obj) is type(fresh)
             r["shown"] = X.describe(obj)
+            r["pattern"] = "" if (r["eq"] and r["attrs"] and r["type"]) else X.mismatch_pattern(obj, fresh)
             r["proj"] = T.to_json(X.project_generic(obj))
             r["proj_fresh"] = T.to_json(X.project_generic(fresh))
             r["back"] = base64.b64encode(pickle.dumps(fresh)).decode()
